@@ -436,7 +436,7 @@ def stages_C05(tier):
     for fam, n in C01_FAMILIES[tier]:
         out.append(Stage("clean-%s-n%d" % (fam, n), "MC_Expr", gen_cfg(fam, n), "C05CE", modes="struct:noopt,struct:opt"))
     # VM!WellFormed evaluated by TLC on the real bytes of EVERY program of the corpora (no run, not sampled)
-    for fam, n in [("logic", 4), ("builtin", 5), ("mixed", 4), ("calls", 5)] + ([("coll", 4), ("access", 4), ("string", 4)] if tier == "thorough" else []):
+    for fam, n in [("logic", 4), ("builtin", 5), ("mixed", 4), ("calls", 5), ("string", 5)] + ([("coll", 4), ("access", 4)] if tier == "thorough" else []):
         out.append(trace_stage("wellformed-%s" % fam, fam, n, 1, max_runs=1000000, wfonly=True))
     # the repository's own test traffic against the value-free stack-shape machine
     out.append(shape_stage())
@@ -489,11 +489,13 @@ def check_C05(tier):
 # C06
 
 def stages_C06(tier):
-    n = 4 if tier == "quick" else 5
+    n = 5 if tier == "quick" else 6
     out = [Stage("mc-alloc-n%d" % (3 if tier == "quick" else 4), "MC_VM",
                  mc_vm_cfg("alloc", 3 if tier == "quick" else 4, invariants=("Conforms", "BudgetBounds", "RunsClean")),
                  kind="mc", workers=vf.NCPU),
            Stage("alloc-n%d" % n, "MC_Expr", gen_cfg("alloc", n), "C06", modes="struct:noopt,none:noopt,struct:opt")]
+    # an allocating left operand of `in` with a range of run-time bounds: every operand is evaluated and charged once
+    out.append(Stage("alloc-in-n8", "MC_Expr", gen_cfg("allocin", 8), "C06", modes="struct:noopt,struct:opt"))
     # a literal range larger than the budget, evaluated or not: refused by the run that evaluates it, never before
     out.append(Stage("bigrange-n6", "MC_Expr", gen_cfg("bigrng", 6), "C06", modes="struct:noopt,struct:opt,none:opt"))
     out.append(Stage("alloc-sim", "MC_Expr", gen_cfg("alloc", 10, maxclosure=3), "C06", modes="struct:noopt,none:noopt,struct:opt",
@@ -566,6 +568,11 @@ def opt_cfg(family, n):
     return gen_cfg(family, n, emit="none", invariants=("Transparent",), extra={"OptDevs": ("<-", "NoDevs")})
 
 
+def stages_C02_extra(tier):
+    # whatever the checker makes of an ill-typed text, the optimizer does not change it (MC_Err single-fault texts)
+    return [Stage("illtyped-alike-logic-n3", "MC_Err", err_cfg("logic", 3, "reject"), "C02R", modes="struct:opt", timeout=2400)]
+
+
 def stages_C02(tier):
     # the optimizer's passes as designed (Optimizer.tla) are transparent on every expression x assignment
     out = [Stage("design-%s-n%d" % (fam, n), "MC_Opt", opt_cfg(fam, n), kind="mc", workers=vf.NCPU, timeout=2400)
@@ -575,6 +582,7 @@ def stages_C02(tier):
     n = 5 if tier == "quick" else 6
     out.append(Stage("cexpr-n%d" % n, "MC_Expr", gen_cfg("cexpr", n), "C02",
                      modes="struct:opt:const,struct:noopt:const,struct:opt,struct:noopt"))
+    out += stages_C02_extra(tier)
     return out
 
 
@@ -642,6 +650,9 @@ def stages_C18(tier):
                  modes=modes, timeout=1800),
            Stage("laws-nest-n%d" % (n + 3), "MC_Expr", gen_cfg("nest", n + 3, emit="laws", invariants=("EmitLaws", "LawsHold")), "C18",
                  modes=modes, timeout=2400),
+           # "a closure nested to any depth sees the element of its own innermost collection": mappers over mappers with a
+           # builtin of their own inside, against the reference value
+           Stage("own-element-mapmap-n9", "MC_Expr", gen_cfg("mapmap", 9), "C01", modes="struct:opt,struct:noopt", timeout=1800),
            Stage("laws-sim", "MC_Expr", gen_cfg("laws", 11, maxclosure=3, emit="laws", invariants=("EmitLaws", "LawsHold")),
                  "C18", modes=modes, simulate=600 if tier == "quick" else 6000, depth=13, warm=False)]
     return out
@@ -702,6 +713,8 @@ def stages_C10(tier):
                      modes="struct:noopt,struct:opt", timeout=2400))
     out.append(Stage("clients-overload-args-n5", "MC_Expr", gen_cfg("ovlarg", 5, emit="ovl", invariants=("EmitOvl", "OvlTyped")), "C17",
                      modes="struct:noopt,struct:opt", timeout=2400))
+    # the optimizer's passes as clients: a node the parser placed in two slots (`c ?: b`) is rewritten in both
+    out.append(Stage("clients-optimizer-inrng", "MC_Expr", gen_cfg("inrng", 7), "C02", modes="struct:opt,struct:noopt", timeout=1800))
     out.append(Stage("clients-tables", "OpTable", optable_cfg(2 if tier == "quick" else 3), "C17M", modes="struct:opt", timeout=2400))
     for fam in ("mixed", "coll", "builtin"):
         out.append(Stage("walk-%s-sim" % fam, "MC_Expr",
@@ -737,7 +750,7 @@ def stages_C17(tier):
     modes = "struct:noopt,struct:opt,ptr:opt,altmap:opt,altmap:noopt"
     n = 5 if tier == "quick" else 6
     return [Stage("tables-%d" % (3 if tier == "quick" else 4), "OpTable", optable_cfg(3 if tier == "quick" else 4), "C17M",
-                  modes="struct:opt,struct:noopt,ptr:opt", timeout=2400),
+                  modes="struct:opt,ptr:noopt", timeout=2400),
             Stage("ovl-n%d" % n, "MC_Expr", gen_cfg("ovl", n, emit="ovl", invariants=("EmitOvl", "OvlTyped")), "C17",
                   modes=modes, timeout=2400),
             Stage("ovl-args-n%d" % n, "MC_Expr", gen_cfg("ovlarg", n, emit="ovl", invariants=("EmitOvl", "OvlTyped")), "C17",
@@ -799,6 +812,9 @@ def stages_C11(tier):
         out.append(Stage("syn-%s-n%d" % (fam, n), "MC_Front", syn_cfg(fam, n), "C11", timeout=2400))
     for alpha, n in C11_SEQS[tier]:
         out.append(Stage("seq-%s-len%d" % (alpha, n), "MC_Front", seq_cfg(alpha, n), "C11", timeout=2400))
+    # near misses of sentences: one token deleted, doubled, or swapped with its neighbour
+    for fam, n in ([("forms", 4), ("postfix", 3), ("cond", 5)] if tier == "quick" else [("forms", 5), ("postfix", 4), ("cond", 6), ("mixed", 4)]):
+        out.append(Stage("near-%s-n%d" % (fam, n), "MC_Front", syn_cfg(fam, n, emit="near", invariants=("EmitNear",)), "C11", timeout=2400))
     sim_n = 400 if tier == "quick" else 5000
     for fam in ("mixed", "forms", "postfix"):
         out.append(Stage("syn-%s-sim" % fam, "MC_Front", syn_cfg(fam, 14, maxclosure=3), "C11",
@@ -837,9 +853,9 @@ def lex_cfg(family, maxlen):
 
 
 C12_FAMILIES = {"quick": [("strlit", 2), ("numlit", 4), ("bigvals", 1), ("layout", 1), ("all-num", 3), ("all-str", 3), ("all-op", 3),
-                          ("all-word", 4), ("all-misc", 3)],
+                          ("all-word", 4), ("all-misc", 3), ("numsuffix", 1)],
                 "thorough": [("strlit", 3), ("numlit", 5), ("bigvals", 1), ("layout", 1), ("all-num", 4), ("all-str", 4), ("all-op", 4),
-                             ("all-word", 5), ("all-misc", 4)]}
+                             ("all-word", 5), ("all-misc", 4), ("numsuffix", 1)]}
 
 
 def stages_C12(tier):
@@ -922,7 +938,7 @@ def check_C13(tier):
 # ---------------------------------------------------------------------------
 # C03: soundness on statically typed programs, rejection of single typing faults
 
-C03_SOUND = {"quick": [("arith", 4), ("logic", 4), ("string", 4), ("coll", 4), ("access", 4), ("builtin", 5), ("promo", 3)],
+C03_SOUND = {"quick": [("arith", 4), ("logic", 4), ("string", 4), ("coll", 4), ("access", 4), ("builtin", 5), ("promo", 3), ("mixed", 4)],
              "thorough": [("arith", 5), ("logic", 5), ("string", 5), ("coll", 5), ("access", 5), ("builtin", 6), ("promo", 3),
                           ("mixed", 5)]}
 C03_REJECT = {"quick": [("logic", 3), ("access", 3), ("builtin", 4)], "thorough": [("logic", 4), ("access", 4), ("builtin", 5), ("coll", 4)]}
